@@ -289,7 +289,11 @@ def body(chk):
             if not same:
                 o.verdict = 'violated'
                 o.detail = 'feature fields other than the scenario lists changed'
+            if any(o_.verdict == 'violated' for o_ in obs.values()):
+                ex_.stop = True          # a counterexample: go and confirm it instead of enumerating the rest
         ex.explore(run, on_end)
+        if any(o_.verdict == 'violated' for o_ in obs.values()):
+            break
     eval_obligation(chk, 'C15', obs)
     # the tags a filter sees on a scenario that came out of an outline are the ones expansion gave it (outline's + its own
     # Examples block's): decided on expand_scenario / expand_examples
@@ -334,7 +338,8 @@ def confirm(chk, bad):
              'tags8': lambda t: 'smoke' in t, 'tags9': lambda t: not ('smoke' in t and 'wip' not in t),
              'tags10': lambda t: not ('wip' in t or 'slow' not in t),
              'tags11': lambda t: not ((not ('smoke' in t or 'wip' in t)) and 'slow' not in t)}
-    scen = [('t_plain', False, []), ('t_wip', False, ['wip']), ('r_plain', True, []), ('r_wip', True, ['wip']), ('r_slow', True, ['slow'])]
+    scen = [('t_plain', False, []), ('t_wip', False, ['wip']), ('r_plain', True, []), ('r_wip', True, ['wip']), ('r_slow', True, ['slow']),
+            ('r_smoke', True, ['smoke'])]          # (a tag that the rule / the feature may carry as well: tags form a multiset)
     devs, n = [], 0
     for ln in out.splitlines():
         if not ln.startswith('CASE '):
